@@ -115,9 +115,7 @@ Proof.
       intros a Ha a' k' E R. apply (IH a a' k'); [pose proof (children_size e a Ha); lia|exact E|exact R].
     + destruct e; try discriminate Hp.
       * cbn [irep] in Hm. unfold zero_sub in Hm.
-        destruct (existsb _ fi); [|injection Hm as <-; exact Hr].
-        match type of Hm with context [match ?X with [] => _ | _ => _ end] => destruct X end;
-          [discriminate|]. injection Hm as <-. exact Hr.
+        destruct (existsb _ fi); injection Hm as <-; exact Hr.
       * cbn [irep] in Hm. unfold bind in Hm.
         destruct (irep m e) as [a'|] eqn:E; [|discriminate]. injection Hm as <-.
         cbn [rk] in *. apply andb_true_iff in Hr. destruct Hr as [H0 Hr]. rewrite H0. cbn.
@@ -223,9 +221,7 @@ Proof.
       intros a Ha a' E s0 c0 Hr0. apply IH; [pose proof (children_size e a Ha); lia|apply (safe_child m e a Hp Hsafe Ha)|exact E|exact Hr0].
     + destruct e; try discriminate Hp.
       * (* Zero *) cbn [irep] in Hm. unfold zero_sub in Hm.
-        destruct (existsb _ fi); [|injection Hm as <-; intros; reflexivity].
-        match type of Hm with context [match ?X with [] => _ | _ => _ end] => destruct X end;
-          [discriminate|]. injection Hm as <-. intros; reflexivity.
+        destruct (existsb _ fi); injection Hm as <-; intros; reflexivity.
       * (* Indexed *) cbn [irep] in Hm. unfold bind in Hm.
         destruct (irep m e) as [a'|] eqn:E; [|discriminate]. injection Hm as <-.
         cbn [safe efold] in Hsafe. rewrite andb_true_r in Hsafe.
